@@ -4,6 +4,10 @@
 #include <covfie/core/backend/primitive/identity.hpp>
 #include <covfie/core/backend/transformer/affine.hpp>
 #include <covfie/core/field.hpp>
+#include <atomic>
+#include <cmath>
+#include <map>
+#include <thread>
 #include "common.hpp"
 using namespace vf;
 namespace ca = covfie::algebra;
@@ -58,6 +62,47 @@ static ivec layer_at(const imat & A, const ivec & v) {
     return o;
 }
 
+// The same case scaled by powers of two: the linear part by 2^ea, the coordinate by 2^ex, the translation by 2^(ea+ex).  Every
+// product and sum stays exact (small integers times a power of two), so the layer must return (A v + t) * 2^(ea+ex) exactly -
+// with matrix entries far below the smallest normal number and coordinates close to the largest finite one.
+template <std::size_t N, typename T>
+static void layer_scaled(const imat & A, const ivec & v, const ivec & want, int ea, int ex, const std::string & tag) {
+    using I = cb::identity<cv::vector_d<T, N>>;
+    using AF = cb::affine<I>;
+    covfie::array::array<covfie::array::array<T, N + 1>, N> a;
+    for (std::size_t i = 0; i < N; ++i) for (std::size_t j = 0; j < N + 1; ++j) a[i][j] = std::ldexp((T)A[i][j], j == N ? ea + ex : ea);
+    covfie::field<AF> f(covfie::make_parameter_pack(typename AF::configuration_t(ca::affine<N, T>(ca::matrix<N, N + 1, T>(a))), std::monostate{}));
+    typename covfie::field<AF>::view_t vw(f);
+    covfie::array::array<T, N> c;
+    for (std::size_t i = 0; i < N; ++i) c[i] = std::ldexp((T)v[i], ex);
+    auto r = vw.at(c);
+    ++g_checks;
+    for (std::size_t i = 0; i < N; ++i)
+        if (r[i] != std::ldexp((T)want[i], ea + ex)) { mismatch("affine-layer-scaled/" + tag, {{"A", A}, {"v", v}, {"matrix_scaled_by_2^", ea}, {"coordinate_scaled_by_2^", ex}, {"component", i}, {"got", (double)r[i]}, {"want", (double)std::ldexp((T)want[i], ea + ex)}}); break; }
+}
+
+// hidden state: the same products formed by several threads at once, each on its own operands, must equal the sequential ones
+template <std::size_t N, typename T>
+static void threaded_products(const std::vector<json> & pairs, int threads, const std::string & tag) {
+    std::vector<std::pair<ca::affine<N, T>, ca::affine<N, T>>> ops;
+    std::vector<imat> want;
+    for (auto & c : pairs) { ops.push_back({mk<N, T>(c["A"].get<imat>()), mk<N, T>(c["B"].get<imat>())}); want.push_back(c["AB"].get<imat>()); }
+    if (ops.empty()) return;
+    std::atomic<long> bad{0}, go{0};
+    std::vector<std::thread> th;
+    for (int t = 0; t < threads; ++t) th.emplace_back([&, t] {
+        go.fetch_add(1); while (go.load() < threads) std::this_thread::yield();
+        for (int round = 0; round < 200; ++round)
+            for (std::size_t k = (std::size_t)t % ops.size(), n = 0; n < ops.size(); ++n, k = (k + 1) % ops.size()) {
+                ca::affine<N, T> a = ops[k].first, b = ops[k].second;      // private copies
+                if (out<N, T>(a * b) != want[k]) bad.fetch_add(1);
+            }
+    });
+    for (auto & x : th) x.join();
+    g_checks += 200 * (long)ops.size() * threads;
+    if (bad.load()) mismatch("affine-times-affine-concurrent/" + tag, {{"threads", threads}, {"wrong_products", bad.load()}, {"distinct_operand_pairs", ops.size()}});
+}
+
 template <std::size_t N, typename T, std::size_t... Is>
 static ca::affine<N, T> translation_of(const ivec & t, std::index_sequence<Is...>) { return ca::affine<N, T>::translation((T)t[Is]...); }
 template <std::size_t N, typename T, std::size_t... Is>
@@ -78,6 +123,8 @@ static void run_case(const json & c) {
         expect_eq("nested-application/" + tag, outv<N, T>(a * ca::vector<N, T>(b * x)), c["ABv"].get<ivec>(), ctx);
         expect_eq("affine-layer/" + tag, layer_at<N, T>(A, v), c["Av"].get<ivec>(), ctx);
         expect_eq("affine-layer-composed/" + tag, layer_at<N, T>(out<N, T>(a * b), v), c["ABv"].get<ivec>(), ctx);
+        if constexpr (std::is_same_v<T, float>) { layer_scaled<N, T>(A, v, c["Av"].get<ivec>(), -133, 122, tag); layer_scaled<N, T>(A, v, c["Av"].get<ivec>(), 100, -90, tag); }
+        else { layer_scaled<N, T>(A, v, c["Av"].get<ivec>(), -1035, 1018, tag); layer_scaled<N, T>(A, v, c["Av"].get<ivec>(), 900, -800, tag); }
     } else if (kind == "chain") {
         std::vector<imat> Ms = c["Ms"]; ivec v = c["v"];
         json ctx = {{"Ms", Ms}, {"v", v}};
@@ -157,6 +204,14 @@ int main(int argc, char ** argv) {
                 case 4: run_case<4, float>(c); run_case<4, double>(c); break;
             }
         }
+        summary();
+    } else if (mode == "threads") {     // threads <cases> <T>
+        std::map<int, std::vector<json>> by_n;
+        for (auto & c : read_ndjson(argv[2])) if (c["kind"] == "pair" && by_n[c["n"].get<int>()].size() < 40) by_n[c["n"].get<int>()].push_back(c);
+        int T = std::atoi(argv[3]);
+        threaded_products<1, float>(by_n[1], T, "N1/float"); threaded_products<2, float>(by_n[2], T, "N2/float"); threaded_products<3, double>(by_n[3], T, "N3/double");
+        threaded_products<4, float>(by_n[4], T, "N4/float"); threaded_products<2, double>(by_n[2], T, "N2/double"); threaded_products<3, float>(by_n[3], T, "N3/float");
+        g_cases = 6;
         summary();
     } else if (mode == "trace") {
         rng r(std::strtoull(argv[2], nullptr, 10));
